@@ -1,37 +1,49 @@
-From Coq Require Import ZArith List Bool Lia ZifyBool Permutation Sorted.
+(* C12 — the same alignments as one BAM or split over several BAM files of one experiment.
+
+   Anchors: src/alignment_processor.py  make_alignment_tuple / BAMOnlineMerger._set / BAMOnlineMerger.get
+            (queue.PriorityQueue of tuples (reference_start, reference_end, bam_index, alignment), one head per file:
+             a tie on (start, end) is decided by the file index, the alignment object itself is never compared),
+            AlignmentCollector.process (model `process` of Regions.v: clustering by overlap with the running hull).
+
+   Records are (reference_start, reference_end, id) as in Regions.v; a file is a list of records in file order.
+   `kmerge` = repeatedly take the smallest head by (start, end), the lowest file index among equals — what a priority
+   queue keyed (start, end, index) with one entry per non-exhausted file yields.  The queue itself (heapq) is a library
+   structure and is tied to this description by the correspondence on the real BAMOnlineMerger (harness/props/c12.py). *)
+From Coq Require Import ZArith List Bool Lia ZifyBool Permutation Sorted Relation_Operators.
+From IQ.gen Require Import Prims.
+From IQ Require Import Regions.
 Import ListNotations. Open Scope Z_scope.
 
-(* records are (start, end, payload id); files are lists sorted by (start, end) *)
 Notation rec := (Z * Z * Z)%type.
-Definition kle (a b:rec) : bool := let '(s1,e1,_) := a in let '(s2,e2,_) := b in (s1 <? s2) || ((s1 =? s2) && (e1 <=? e2)).
-Definition kleP (a b:rec) : Prop := kle a b = true.
+Definition kle (a b : rec) : bool := let '(s1, e1, _) := a in let '(s2, e2, _) := b in (s1 <? s2) || ((s1 =? s2) && (e1 <=? e2)).
+Definition kleP (a b : rec) : Prop := kle a b = true.
+Definition key (a : rec) : Z * Z := (rs a, re a).
 
-(* BAMOnlineMerger: repeatedly take the smallest head; ties between files go to the lower file index (first in the list) *)
-Fixpoint min_head (fs:list (list rec)) : option rec :=
+(* ================================================================== 1. the merge *)
+Fixpoint min_head (fs : list (list rec)) : option rec :=
   match fs with
   | [] => None
-  | []::t => min_head t
-  | (h::_)::t => match min_head t with None => Some h | Some m => if kle h m then Some h else Some m end
+  | [] :: t => min_head t
+  | (h :: _) :: t => match min_head t with None => Some h | Some m => if kle h m then Some h else Some m end
   end.
-(* remove the first occurrence of that head *)
-Fixpoint pop (m:rec) (fs:list (list rec)) : list (list rec) :=
+(* remove that head from the file it came from (the first file whose head it is, scanning as min_head does) *)
+Fixpoint pop (m : rec) (fs : list (list rec)) : list (list rec) :=
   match fs with
   | [] => []
-  | []::t => [] :: pop m t
-  | (h::r)::t => match min_head t with
-                 | None => r :: t
-                 | Some m' => if kle h m' then r :: t else (h::r) :: pop m t
-                 end
+  | [] :: t => [] :: pop m t
+  | (h :: r) :: t => match min_head t with
+                     | None => r :: t
+                     | Some m' => if kle h m' then r :: t else (h :: r) :: pop m t
+                     end
   end.
-Fixpoint merge (fuel:nat) (fs:list (list rec)) : list rec :=
+Fixpoint merge (fuel : nat) (fs : list (list rec)) : list rec :=
   match fuel with O => [] | S n => match min_head fs with None => [] | Some m => m :: merge n (pop m fs) end end.
-Definition total (fs:list (list rec)) : nat := length (concat fs).
-Definition kmerge (fs:list (list rec)) : list rec := merge (total fs) fs.
+Definition total (fs : list (list rec)) : nat := length (concat fs).
+Definition kmerge (fs : list (list rec)) : list rec := merge (total fs) fs.
 
 Lemma min_head_none fs : min_head fs = None -> concat fs = [].
 Proof. induction fs as [|f t IH]; [reflexivity|]. destruct f as [|h r]; simpl; [exact IH|]. destruct (min_head t) as [m'|]; [destruct (kle h m')|]; discriminate. Qed.
 
-(* popping the minimum removes exactly that record: the multiset is preserved *)
 Lemma pop_perm : forall fs m, min_head fs = Some m -> Permutation (concat fs) (m :: concat (pop m fs)).
 Proof. induction fs as [|f t IH]; intros m H; [discriminate|]. destruct f as [|h r]; cbn [min_head pop concat app] in *.
   - apply IH, H.
@@ -46,7 +58,7 @@ Proof. induction fs as [|f t IH]; intros m H; [discriminate|]. destruct f as [|h
 Lemma pop_total fs m : min_head fs = Some m -> total fs = S (total (pop m fs)).
 Proof. intros H. unfold total. rewrite (Permutation_length (pop_perm fs m H)). reflexivity. Qed.
 
-(* the merged stream is a permutation of all records of all files: nothing lost, nothing duplicated *)
+(* nothing lost, nothing duplicated *)
 Theorem merge_perm : forall n fs, total fs = n -> Permutation (concat fs) (merge n fs).
 Proof. induction n as [|n IH]; intros fs H.
   - unfold total in H. apply length_zero_iff_nil in H. rewrite H. simpl. constructor.
@@ -55,14 +67,17 @@ Proof. induction n as [|n IH]; intros fs H.
     + apply min_head_none in E. unfold total in H. rewrite E in H. discriminate. Qed.
 Corollary kmerge_perm fs : Permutation (concat fs) (kmerge fs). Proof. apply merge_perm. reflexivity. Qed.
 
-(* sortedness: the head taken is a lower bound of everything left, given each file is sorted *)
 Lemma kle_trans a b c : kleP a b -> kleP b c -> kleP a c.
 Proof. unfold kleP, kle. destruct a as [[s1 e1] p1], b as [[s2 e2] p2], c as [[s3 e3] p3]. lia. Qed.
 Lemma kle_total a b : kle a b = false -> kleP b a.
 Proof. unfold kleP, kle. destruct a as [[s1 e1] p1], b as [[s2 e2] p2]. lia. Qed.
 Lemma kle_refl a : kleP a a. Proof. unfold kleP, kle. destruct a as [[s e] p]. lia. Qed.
+Lemma kle_antisym a b : kleP a b -> kleP b a -> key a = key b.
+Proof. unfold kleP, kle, key, rs, re. destruct a as [[s1 e1] p1], b as [[s2 e2] p2]. cbn. intros H1 H2. f_equal; lia. Qed.
+Lemma key_kle a b : key a = key b -> kleP a b.
+Proof. unfold kleP, kle, key, rs, re. destruct a as [[s1 e1] p1], b as [[s2 e2] p2]. cbn. intro H. inversion H. lia. Qed.
 
-Definition all_sorted (fs:list (list rec)) := Forall (fun f => StronglySorted kleP f) fs.
+Definition all_sorted (fs : list (list rec)) := Forall (fun f => StronglySorted kleP f) fs.
 Lemma min_head_lower : forall fs m, all_sorted fs -> min_head fs = Some m -> Forall (kleP m) (concat fs).
 Proof. induction fs as [|f t IH]; intros m S H; [discriminate|]. inversion S; subst. destruct f as [|h r]; cbn [min_head concat app] in *.
   - apply IH; assumption.
@@ -88,5 +103,243 @@ Proof. induction n as [|n IH]; intros fs Hn S; [constructor|]. cbn [merge]. dest
   eapply Permutation_in; [apply Permutation_sym, P|]. right.
   eapply Permutation_in; [apply Permutation_sym, merge_perm, Hn'|exact Hx]. Qed.
 Corollary kmerge_sorted fs : all_sorted fs -> StronglySorted kleP (kmerge fs). Proof. apply merge_sorted. reflexivity. Qed.
-Print Assumptions kmerge_perm.
-Print Assumptions kmerge_sorted.
+
+(* A coordinate-sorted BAM is sorted by reference_start only: records with one start come in any order of their ends.
+   So two notions of order are kept: by start (`sleP`, what the files guarantee) and by (start, end) (`kleP`). *)
+Definition sleP (a b : rec) : Prop := rs a <= rs b.
+Definition all_sorted_s (fs : list (list rec)) := Forall (fun f => StronglySorted sleP f) fs.
+Lemma kle_sle a b : kleP a b -> sleP a b.
+Proof. unfold kleP, kle, sleP, rs. destruct a as [[s1 e1] p1], b as [[s2 e2] p2]. cbn. lia. Qed.
+
+Lemma min_head_lower_s : forall fs m, all_sorted_s fs -> min_head fs = Some m -> Forall (sleP m) (concat fs).
+Proof. induction fs as [|f t IH]; intros m S H; [discriminate|]. inversion S; subst. destruct f as [|h r]; cbn [min_head concat app] in *.
+  - apply IH; assumption.
+  - assert (Hr: Forall (sleP h) r) by (inversion H2; assumption).
+    destruct (min_head t) as [m'|] eqn:E.
+    + specialize (IH m' H3 eq_refl). destruct (kle h m') eqn:K; inversion H; subst.
+      * apply kle_sle in K. constructor; [unfold sleP; lia|]. apply Forall_app. split; [exact Hr|]. eapply Forall_impl; [|exact IH]. unfold sleP in *. intros x Hx. lia.
+      * apply kle_total, kle_sle in K. constructor; [exact K|]. apply Forall_app. split; [|exact IH].
+        eapply Forall_impl; [|exact Hr]. unfold sleP in *. intros x Hx. lia.
+    + inversion H; subst. apply min_head_none in E. rewrite E, app_nil_r. constructor; [unfold sleP; lia|exact Hr]. Qed.
+Lemma pop_sorted_s : forall fs m, all_sorted_s fs -> all_sorted_s (pop m fs).
+Proof. induction fs as [|f t IH]; intros m S; [constructor|]. inversion S; subst. destruct f as [|h r]; cbn [pop].
+  - constructor; [constructor|apply IH, H2].
+  - destruct (min_head t) as [m'|]; [destruct (kle h m')|]; try (constructor; [inversion H1; assumption|assumption]).
+    constructor; [assumption|apply IH, H2]. Qed.
+Theorem merge_sorted_s : forall n fs, total fs = n -> all_sorted_s fs -> StronglySorted sleP (merge n fs).
+Proof. induction n as [|n IH]; intros fs Hn S; [constructor|]. cbn [merge]. destruct (min_head fs) as [m|] eqn:E; [|constructor].
+  assert (Hn': total (pop m fs) = n) by (rewrite (pop_total fs m E) in Hn; lia).
+  constructor; [apply IH; [exact Hn'|apply pop_sorted_s, S]|].
+  pose proof (min_head_lower_s fs m S E) as L. pose proof (pop_perm fs m E) as P.
+  apply Forall_forall. intros x Hx. rewrite Forall_forall in L. apply L.
+  eapply Permutation_in; [apply Permutation_sym, P|]. right.
+  eapply Permutation_in; [apply Permutation_sym, merge_perm, Hn'|exact Hx]. Qed.
+Corollary kmerge_sorted_s fs : all_sorted_s fs -> StronglySorted sleP (kmerge fs). Proof. apply merge_sorted_s. reflexivity. Qed.
+
+(* ================================================================== 2. equal up to the order inside ties *)
+Section Ties.
+  Variable tie : rec -> rec -> Prop.          (* "same start" or "same (start, end)" *)
+  Variable le : rec -> rec -> Prop.
+  Hypothesis tie_sym : forall a b, tie a b -> tie b a.
+  Hypothesis le_refl : forall a, le a a.
+  Hypothesis le_antisym : forall a b, le a b -> le b a -> tie a b.
+
+  (* one exchange of two tied neighbours *)
+  Inductive tieswap : list rec -> list rec -> Prop :=
+  | tieswap_here a b s : tie a b -> tieswap (a :: b :: s) (b :: a :: s)
+  | tieswap_skip x l m : tieswap l m -> tieswap (x :: l) (x :: m).
+  Definition tie_equiv : list rec -> list rec -> Prop := clos_refl_trans _ tieswap.
+
+  Lemma tieswap_sym l m : tieswap l m -> tieswap m l.
+  Proof. induction 1; [apply tieswap_here, tie_sym; assumption|apply tieswap_skip; assumption]. Qed.
+  Lemma tie_equiv_sym l m : tie_equiv l m -> tie_equiv m l.
+  Proof. induction 1; [apply rt_step, tieswap_sym; assumption|apply rt_refl|eapply rt_trans; eassumption]. Qed.
+  Lemma tie_equiv_cons x l m : tie_equiv l m -> tie_equiv (x :: l) (x :: m).
+  Proof. induction 1; [apply rt_step, tieswap_skip; assumption|apply rt_refl|eapply rt_trans; eassumption]. Qed.
+  Lemma tieswap_perm l m : tieswap l m -> Permutation l m.
+  Proof. induction 1; [apply perm_swap|apply perm_skip; assumption]. Qed.
+  Lemma tie_equiv_perm l m : tie_equiv l m -> Permutation l m.
+  Proof. induction 1; [apply tieswap_perm; assumption|apply Permutation_refl|eapply perm_trans; eassumption]. Qed.
+
+  (* a record tied with everything before it can be moved to the front *)
+  Lemma bubble a : forall m1 m2, Forall (fun x => tie x a) m1 -> tie_equiv (m1 ++ a :: m2) (a :: m1 ++ m2).
+  Proof. induction m1 as [|x m1 IH]; intros m2 H; [apply rt_refl|]. inversion H; subst. cbn [app].
+    eapply rt_trans; [apply tie_equiv_cons, IH; assumption|]. apply rt_step, tieswap_here. assumption. Qed.
+
+  Lemma sorted_remove_middle : forall p (a : rec) s, StronglySorted le (p ++ a :: s) -> StronglySorted le (p ++ s).
+  Proof. induction p as [|x p IH]; intros a s H; cbn [app] in *; inversion H; subst; [assumption|].
+    constructor; [eapply IH; eassumption|]. apply Forall_app in H3. destruct H3 as [H3 H4]. inversion H4; subst. apply Forall_app. split; assumption. Qed.
+
+  (* two sorted lists with the same records differ only inside ties *)
+  Theorem sorted_perm_tie_equiv : forall l m, StronglySorted le l -> StronglySorted le m -> Permutation l m -> tie_equiv l m.
+  Proof.
+    induction l as [|a t IH]; intros m Sl Sm P.
+    - apply Permutation_nil in P. subst. apply rt_refl.
+    - assert (Ia: In a m) by (eapply Permutation_in; [exact P|left; reflexivity]).
+      apply in_split in Ia. destruct Ia as (m1 & m2 & ->).
+      inversion Sl; subst.
+      assert (K1: Forall (fun x => tie x a) m1).
+      { apply Forall_forall. intros x Hx.
+        assert (Hxa: le x a).
+        { clear - Sm Hx. induction m1 as [|y m1 IHm]; [contradiction|]. cbn [app] in Sm. inversion Sm; subst. destruct Hx as [->|Hx].
+          - rewrite Forall_forall in H2. apply H2. apply in_or_app. right. left. reflexivity.
+          - apply IHm; assumption. }
+        assert (Hax: le a x).
+        { assert (In x (a :: t)) by (eapply Permutation_in; [apply Permutation_sym, P|apply in_or_app; left; exact Hx]).
+          destruct H as [->|H]; [apply le_refl|]. rewrite Forall_forall in H2. apply H2, H. }
+        apply le_antisym; assumption. }
+      apply tie_equiv_sym. eapply rt_trans; [apply bubble, K1|]. apply tie_equiv_cons, tie_equiv_sym, IH.
+      + assumption.
+      + eapply sorted_remove_middle; eassumption.
+      + eapply Permutation_cons_app_inv; eassumption. Qed.
+End Ties.
+
+Definition same_start (a b : rec) : Prop := rs a = rs b.
+Definition same_key (a b : rec) : Prop := key a = key b.
+Notation tie_equiv_s := (tie_equiv same_start).      (* up to the order among records with one start *)
+Notation tie_equiv_k := (tie_equiv same_key).        (* up to the order among records with one (start, end) *)
+
+Lemma same_key_start a b : same_key a b -> same_start a b.
+Proof. unfold same_key, same_start, key. intro H. inversion H. reflexivity. Qed.
+Lemma tieswap_k_s l m : tieswap same_key l m -> tieswap same_start l m.
+Proof. induction 1; [apply tieswap_here, same_key_start; assumption|apply tieswap_skip; assumption]. Qed.
+Lemma tie_equiv_k_s l m : tie_equiv_k l m -> tie_equiv_s l m.
+Proof. induction 1; [apply rt_step, tieswap_k_s; assumption|apply rt_refl|eapply rt_trans; eassumption]. Qed.
+Lemma sle_antisym a b : sleP a b -> sleP b a -> same_start a b. Proof. unfold sleP, same_start. lia. Qed.
+Lemma sle_refl a : sleP a a. Proof. unfold sleP. lia. Qed.
+Lemma same_start_sym a b : same_start a b -> same_start b a. Proof. unfold same_start. auto. Qed.
+Lemma same_key_sym a b : same_key a b -> same_key b a. Proof. unfold same_key. auto. Qed.
+
+Lemma tieswap_starts l m : tieswap same_start l m -> map rs l = map rs m.
+Proof. induction 1; cbn [map]; [rewrite H; reflexivity|rewrite IHtieswap; reflexivity]. Qed.
+Lemma tie_equiv_starts l m : tie_equiv_s l m -> map rs l = map rs m.
+Proof. induction 1; [apply tieswap_starts; assumption|reflexivity|congruence]. Qed.
+Lemma tieswap_keys l m : tieswap same_key l m -> map key l = map key m.
+Proof. induction 1; cbn [map]; [rewrite H; reflexivity|rewrite IHtieswap; reflexivity]. Qed.
+Lemma tie_equiv_keys l m : tie_equiv_k l m -> map key l = map key m.
+Proof. induction 1; [apply tieswap_keys; assumption|reflexivity|congruence]. Qed.
+
+(* For ALL partitions of a record list into k files: if the list and the files are sorted by start (coordinate-sorted BAMs)
+   the merged stream is a start-sorted permutation of the union, equal to the list up to the order among records with one
+   start; if they are sorted by (start, end) it is sorted by (start, end) and equal up to the order inside (start, end) ties. *)
+Theorem merge_is_sorted_permutation : forall l fs, Permutation l (concat fs) ->
+  Permutation l (kmerge fs) /\
+  (StronglySorted sleP l -> all_sorted_s fs ->
+     StronglySorted sleP (kmerge fs) /\ tie_equiv_s l (kmerge fs) /\ map rs (kmerge fs) = map rs l) /\
+  (StronglySorted kleP l -> all_sorted fs ->
+     StronglySorted kleP (kmerge fs) /\ tie_equiv_k l (kmerge fs) /\ map key (kmerge fs) = map key l).
+Proof. intros l fs P.
+  assert (P2: Permutation l (kmerge fs)) by (eapply perm_trans; [exact P|apply kmerge_perm]).
+  split; [exact P2|]. split.
+  - intros Sl Sf. assert (S2: StronglySorted sleP (kmerge fs)) by (apply kmerge_sorted_s; exact Sf).
+    assert (T: tie_equiv_s l (kmerge fs)) by (apply (sorted_perm_tie_equiv same_start sleP same_start_sym sle_refl sle_antisym); assumption).
+    repeat split; try assumption. symmetry. apply tie_equiv_starts, T.
+  - intros Sl Sf. assert (S2: StronglySorted kleP (kmerge fs)) by (apply kmerge_sorted; exact Sf).
+    assert (T: tie_equiv_k l (kmerge fs)) by (apply (sorted_perm_tie_equiv same_key kleP same_key_sym kle_refl kle_antisym); assumption).
+    repeat split; try assumption. symmetry. apply tie_equiv_keys, T. Qed.
+
+(* ================================================================== 3. clustering does not depend on the order inside ties *)
+Definition positive (a : rec) : Prop := rs a < re a.          (* an alignment covers at least one reference base *)
+(* the hull's left end is not right of the records still to come (true along a start-sorted stream) *)
+Definition lo_ok (h : option iv) (l : list rec) : Prop := forall r, h = Some r -> Forall (fun x => fst r <= rs x) l.
+
+Lemma same_start_adjacent h a b : same_start a b -> positive a -> positive b -> lo_ok h [a] ->
+  not_adjacent h a = not_adjacent h b.
+Proof. unfold same_start, positive, lo_ok, not_adjacent, py_overlaps, span. intros K Pa Pb L. destruct h as [[lo hi]|]; [|reflexivity].
+  specialize (L _ eq_refl). inversion L; subst. cbn [fst snd] in *. lia. Qed.
+Lemma same_start_hull2 h a b : hull_add (Some (hull_add h a)) b = hull_add (Some (hull_add h b)) a.
+Proof. unfold hull_add, span. destruct h as [[lo hi]|]; cbn [fst snd]; f_equal; lia. Qed.
+(* a record overlaps any hull a record with the same start has just been added to *)
+Lemma adjacent_after_add h a b : same_start a b -> positive a -> positive b -> not_adjacent (Some (hull_add h a)) b = false.
+Proof. unfold same_start, positive, not_adjacent, hull_add, span, py_overlaps. intros K Pa Pb.
+  destruct h as [[lo hi]|]; cbn [fst snd]; lia. Qed.
+
+(* the storage content matters only as a multiset *)
+Lemma process_aux_perm_cur : forall s cur1 cur2 h, Permutation cur1 cur2 ->
+  Forall2 (@Permutation rec) (process_aux cur1 h s) (process_aux cur2 h s).
+Proof. induction s as [|a t IH]; intros cur1 cur2 h P; cbn [process_aux].
+  - destruct h; constructor; [|constructor]. eapply perm_trans; [apply Permutation_sym, Permutation_rev|]. eapply perm_trans; [exact P|apply Permutation_rev].
+  - destruct (not_adjacent h a).
+    + constructor; [eapply perm_trans; [apply Permutation_sym, Permutation_rev|]; eapply perm_trans; [exact P|apply Permutation_rev]|].
+      apply IH. apply Permutation_refl.
+    + apply IH. apply perm_skip, P. Qed.
+
+Lemma Forall2_perm_refl (l : list (list rec)) : Forall2 (@Permutation rec) l l.
+Proof. induction l; constructor; [apply Permutation_refl|assumption]. Qed.
+Lemma Forall2_perm_trans (l m n : list (list rec)) : Forall2 (@Permutation rec) l m -> Forall2 (@Permutation rec) m n -> Forall2 (@Permutation rec) l n.
+Proof. intro H. revert n. induction H; intros n H2; inversion H2; subst; constructor; [eapply perm_trans; eassumption|apply IHForall2; assumption]. Qed.
+
+Lemma process_aux_tieswap : forall l m, tieswap same_start l m -> Forall positive l -> StronglySorted sleP l -> forall cur h, lo_ok h l ->
+  Forall2 (@Permutation rec) (process_aux cur h l) (process_aux cur h m).
+Proof. induction 1 as [a b s K|x l m T IH]; intros Pos Srt cur h LO.
+  - inversion Pos as [|? ? Pa Pos']; subst. inversion Pos' as [|? ? Pb Pos'']; subst.
+    assert (LOa: lo_ok h [a]) by (intros r Hr; specialize (LO r Hr); inversion LO; subst; constructor; [assumption|constructor]).
+    cbn [process_aux]. rewrite <- (same_start_adjacent h a b K Pa Pb LOa).
+    destruct (not_adjacent h a) eqn:NA.
+    + (* a new cluster starts with a (resp. b); the other joins it *)
+      rewrite (adjacent_after_add None a b K Pa Pb). rewrite (adjacent_after_add None b a (eq_sym K) Pb Pa).
+      constructor; [apply Permutation_refl|].
+      rewrite (same_start_hull2 None a b). apply process_aux_perm_cur. apply perm_swap.
+    + rewrite (adjacent_after_add h a b K Pa Pb). rewrite (adjacent_after_add h b a (eq_sym K) Pb Pa).
+      rewrite (same_start_hull2 h a b). apply process_aux_perm_cur. apply perm_swap.
+  - inversion Pos; subst. inversion Srt as [|? ? Srt' Hx]; subst. cbn [process_aux].
+    assert (LO1: lo_ok (Some (hull_add None x)) l).
+    { intros r Hr. inversion Hr; subst. cbn [hull_add span fst]. eapply Forall_impl; [|exact Hx]. unfold sleP. intros y Hy. exact Hy. }
+    assert (LO2: lo_ok (Some (hull_add h x)) l).
+    { intros r Hr. inversion Hr; subst. destruct h as [[lo hi]|]; [|exact (LO1 _ eq_refl)].
+      specialize (LO _ eq_refl). inversion LO as [|? ? Hhd Htl]; subst. cbn [hull_add fst snd] in *. eapply Forall_impl; [|exact Htl]. cbn. intros y Hy. lia. }
+    destruct (not_adjacent h x).
+    + constructor; [apply Permutation_refl|apply IH; assumption].
+    + apply IH; assumption. Qed.
+
+Lemma sorted_s_starts l m : map rs l = map rs m -> StronglySorted sleP l -> StronglySorted sleP m.
+Proof. revert m. induction l as [|a t IH]; intros m E S; destruct m as [|b u]; try discriminate; [constructor|].
+  cbn [map] in E. inversion E. inversion S; subst. constructor; [apply IH; assumption|].
+  clear - H1 H4 H0. revert u H1. induction t as [|c t IHt]; intros u E; destruct u as [|d u]; try discriminate; constructor.
+  - cbn [map] in E. inversion E. inversion H4; subst. unfold sleP in *. lia.
+  - cbn [map] in E. inversion E. inversion H4; subst. apply IHt; assumption. Qed.
+
+Lemma process_tie_equiv : forall l m, tie_equiv_s l m -> Forall positive l -> StronglySorted sleP l ->
+  Forall2 (@Permutation rec) (process l) (process m).
+Proof. induction 1 as [l m T| l |l m n T1 IH1 T2 IH2]; intros Pos Srt.
+  - apply process_aux_tieswap; try assumption. intros r Hr; discriminate.
+  - apply Forall2_perm_refl.
+  - eapply Forall2_perm_trans; [apply IH1; assumption|apply IH2].
+    + rewrite Forall_forall in *. intros x Hx. apply Pos. eapply Permutation_in; [apply Permutation_sym, (tie_equiv_perm _ _ _ T1)|exact Hx].
+    + eapply sorted_s_starts; [apply tie_equiv_starts, T1|exact Srt]. Qed.
+
+(* the clusters AlignmentCollector.process forms are the same multisets of alignments, cluster by cluster, whatever the
+   order among records with one start (hence also whatever the order inside (start, end) ties) *)
+Theorem clusters_invariant_under_tie_order : forall l m,
+  StronglySorted sleP l -> StronglySorted sleP m -> Permutation l m -> Forall positive l ->
+  Forall2 (@Permutation rec) (process l) (process m).
+Proof. intros l m Sl Sm P Pos. apply process_tie_equiv; [|exact Pos|exact Sl].
+  apply (sorted_perm_tie_equiv same_start sleP same_start_sym sle_refl sle_antisym); assumption. Qed.
+
+(* one BAM or several: any two ways of distributing the same records over coordinate-sorted files give, cluster by
+   cluster, the same multisets of alignments *)
+Theorem split_over_files_same_clusters : forall fs1 fs2,
+  all_sorted_s fs1 -> all_sorted_s fs2 -> Permutation (concat fs1) (concat fs2) -> Forall positive (concat fs1) ->
+  Forall2 (@Permutation rec) (process (kmerge fs1)) (process (kmerge fs2)).
+Proof. intros fs1 fs2 S1 S2 P Pos. apply clusters_invariant_under_tie_order.
+  - apply kmerge_sorted_s, S1.
+  - apply kmerge_sorted_s, S2.
+  - eapply perm_trans; [apply Permutation_sym, kmerge_perm|]. eapply perm_trans; [exact P|apply kmerge_perm].
+  - rewrite Forall_forall in *. intros x Hx. apply Pos. eapply Permutation_in; [apply Permutation_sym, kmerge_perm|exact Hx]. Qed.
+
+(* without the hypothesis that every alignment covers a base the statement fails: two zero-length records at one position
+   do not "overlap" each other, so the cut falls between them and the clusters depend on which comes first *)
+Example clusters_need_positive_length_refuted :
+  process [(5, 5, 1); (5, 5, 2)] = [[(5, 5, 1)]; [(5, 5, 2)]] /\ process [(5, 5, 2); (5, 5, 1)] = [[(5, 5, 2)]; [(5, 5, 1)]].
+Proof. vm_compute. split; reflexivity. Qed.
+
+(* ---------- decidable comparisons for the correspondence (harness/props/c12.py) *)
+Definition rec_eqb (a b : rec) : bool := (rs a =? rs b) && (re a =? re b) && (snd a =? snd b).
+Fixpoint list_eqb_rec (x y : list rec) : bool := match x, y with [], [] => true | a :: s, b :: t => rec_eqb a b && list_eqb_rec s t | _, _ => false end.
+Fixpoint sortedb (l : list rec) : bool := match l with a :: ((b :: _) as t) => (rs a <=? rs b) && sortedb t | _ => true end.
+(* (files, what the real merger yielded) *)
+Definition merge_check (c : list (list rec) * list rec) : bool := list_eqb_rec (kmerge (fst c)) (snd c).
+Fixpoint remove1 (a : rec) (l : list rec) : option (list rec) :=
+  match l with [] => None | b :: t => if rec_eqb a b then Some t else match remove1 a t with Some t' => Some (b :: t') | None => None end end.
+Fixpoint permb (l m : list rec) : bool := match l with [] => match m with [] => true | _ => false end | a :: t => match remove1 a m with Some m' => permb t m' | None => false end end.
+Definition merge_prop (c : list (list rec) * list rec) : bool := sortedb (snd c) && permb (concat (fst c)) (snd c).
